@@ -1793,6 +1793,66 @@ def oracle_c11(sc, res):
     return out
 
 
+def holding_at(trace, w, upto):
+    """the task whose lock worker w holds just before event `upto` (by the events), or None"""
+    t = None
+    for e in trace[:upto]:
+        if len(e) > 1 and e[1] == w:
+            if e[0] == 'ELock' and e[3]:
+                t = e[2]
+            elif e[0] in ('EUnlock', 'EFailMark'):
+                t = None
+    return t
+
+
+def oracle_c12(sc, res):
+    """a stopped worker exits, holds no lock afterwards, stores nothing after the stop request; the rest can be finished"""
+    out = []
+    tr = res.trace
+    for (w, code, dead, intr) in res.workers:
+        if intr and not dead and code is None:
+            out.append({'what': 'an interrupted worker did not leave execution_loop', 'worker': w})
+    for i, e in enumerate(tr):
+        if e[0] == 'EInterrupt':
+            w = e[1]
+            for j in range(i + 1, len(tr)):
+                x = tr[j]
+                if len(x) > 1 and x[1] == w and x[0] in ('EDump', 'EStart', 'ELock'):
+                    out.append({'what': 'a worker asked to stop goes on working (%s)' % x[0], 'worker': w, 'at': j, 'interrupt_at': i})
+                    break
+        if e[0] == 'EExit':
+            w = e[1]
+            t = holding_at(tr, w, i)
+            if t is not None:
+                out.append({'what': 'a worker left execution_loop holding a lock', 'worker': w, 'task': t, 'at': i})
+    # the real lock table after each phase in which nobody was killed
+    if not any(dead for (_, _, dead, _) in res.workers) and not sc.get('keep_failed'):
+        for k, snap in enumerate(res.snapshots):
+            if snap['locks']:
+                out.append({'what': 'locks are left in the store after all workers exited', 'locks': snap['locks'], 'phase': k})
+    return out
+
+
+def oracle_c13(sc, res):
+    """residue of a crash = locks of the dead workers; after remove_locks a fresh run completes without re-running stored tasks"""
+    out = []
+    tr = res.trace
+    dead = set(w for (w, _, d, _) in res.workers if d)
+    for k, snap in enumerate(res.snapshots):
+        implied = held_locks_of(tr, snap['at'])
+        want = {t: v[0] for t, v in implied.items() if v[1] in dead}
+        if snap['locks'] != want:
+            out.append({'what': 'after the workers stopped the lock table is not exactly the locks of the killed workers',
+                        'store': snap['locks'], 'expected': want, 'phase': k})
+        for i, c in enumerate(snap['final']):
+            if c is not None and (res.refs[i][0] != 'ok' or canon(res.refs[i][1]) != c):
+                out.append({'what': 'a result present after a crash is not the correct value', 'task': i + 1, 'phase': k})
+    for (w, code, d, intr) in res.workers:
+        if not d and not intr and code != 0 and not any(e[0] == 'ERaise' and e[1] == w for e in tr):
+            out.append({'what': 'a surviving worker exits with a non-zero status', 'worker': w, 'code': code})
+    return out
+
+
 # ================================================================ running a batch of scenarios for a check
 def replay_obj(sc, res, extra):
     o = {'scenario': scenario_with_decisions(sc, res)}
